@@ -23,7 +23,7 @@ import numpy as np
 from scipy.stats import betabinom  # type: ignore[import]
 
 from black_it.samplers.base import BaseSampler
-from black_it.utils.base import _assert
+from black_it.utils.base import _assert, digitize_data
 
 if TYPE_CHECKING:
     from numpy.typing import NDArray
@@ -148,4 +148,6 @@ class BestBatchSampler(BaseSampler):
                     search_space.parameters_bounds[1][index],
                 )
 
-        return sampled_points
+        # shifts are accumulated in floating point and clipped to the bounds, which are not
+        # necessarily grid elements: snap the result onto the grid
+        return digitize_data(sampled_points, search_space.param_grid)
